@@ -94,6 +94,13 @@ func harnessC07Step(nMembers, op int) {
 }
 
 func Harness_C07_step_2()          { harnessC07Step(2, -1) }
+
+// A former member resubscribes: whatever its previous grant was (including none at all), it is restored.
+func Harness_C07_resub_prev_grant() {
+	verifPrevBase = types.ModeNone
+	verifForceActor = 2 // the former member
+	harnessC07Step(2, verifOpSub)
+}
 func Harness_C07_step_3_sub()      { harnessC07Step(3, verifOpSub) }
 func Harness_C07_step_3_setself()  { harnessC07Step(3, verifOpSetSelf) }
 func Harness_C07_step_3_setother() { harnessC07Step(3, verifOpSetOther) }
